@@ -40,6 +40,17 @@ type FuncSpec struct {
 	Used     bool
 	Opaque   bool
 	Unclaimed map[string]string // obligation-name suffix -> reason
+	Lets      []*LetSpec
+}
+
+// LetSpec: a contract-local specification function determined by the pre-state:
+//   let anc(k int) *Directive : axiom1 ; axiom2
+type LetSpec struct {
+	Name   string
+	Params []QVar
+	Result string
+	Axioms []Expr
+	Src    string
 }
 
 type PredSpec struct {
@@ -103,7 +114,7 @@ func NewSpecDB() *SpecDB {
 }
 
 var clauseKW = map[string]bool{"requires": true, "ensures": true, "ghostensures": true, "modifies": true, "decreases": true, "loop": true,
-	"inline": true, "trusted": true, "pure": true, "tag": true, "noframe": true, "opaque": true, "unclaimed": true}
+	"inline": true, "trusted": true, "pure": true, "tag": true, "noframe": true, "opaque": true, "unclaimed": true, "let": true}
 var topKW = map[string]bool{"func": true, "functype": true, "extern": true, "pred": true, "table": true, "specfn": true,
 	"axiom": true, "lemma": true, "ghostfield": true, "iface": true, "const": true}
 
@@ -245,6 +256,32 @@ func (db *SpecDB) LoadFile(path string, pkg string) error {
 				return fail("%v", err)
 			}
 			cur.Clauses = append(cur.Clauses, &Clause{Kind: kind, Tags: tags, Src: src, E: e, Loop: n, File: it.file, Line: it.line})
+		case "let":
+			if cur == nil {
+				return fail("let outside func")
+			}
+			i := strings.Index(rest, ":")
+			if i < 0 {
+				return fail("let syntax: let f(x T) R : axiom ; axiom")
+			}
+			head := strings.TrimSpace(rest[:i])
+			j := strings.LastIndex(head, ")")
+			if j < 0 {
+				return fail("let syntax")
+			}
+			name, params, err := parseHead(head[:j+1])
+			if err != nil {
+				return fail("%v", err)
+			}
+			ls := &LetSpec{Name: name, Params: params, Result: strings.TrimSpace(head[j+1:]), Src: rest}
+			for _, ax := range splitTopLevel(rest[i+1:], ';') {
+				e, err := ParseExpr(ax)
+				if err != nil {
+					return fail("%v", err)
+				}
+				ls.Axioms = append(ls.Axioms, e)
+			}
+			cur.Lets = append(cur.Lets, ls)
 		case "inline":
 			cur.Inline = true
 		case "trusted":
